@@ -21,7 +21,7 @@ RUNS = {'quick': 640, 'thorough': 9600}
 
 RULE = ('runs generated from the seed: a world of n FASTA files (n 0..8, thorough 0..12), then several executions of '
         'calc_file_signatures with drawn concurrency mode, worker count, completion-order policy and 0-2 faults; '
-        'every fourth run is an exhaustive run: all n! completion orders x (no fault + an unreadable file at each '
+        'every fourth run (of each interpreter environment) is an exhaustive run: all n! completion orders x (no fault + an unreadable file at each '
         'position) for n<=5 (thorough n<=6). A case is (n, mode, workers, completion order, fault placement, outcome); '
         'non-trivial = n>=2 and (completion order differs from submission order or a fault fired).')
 
@@ -367,7 +367,7 @@ def scenario(ctx):
 	ch = ctx.ch
 	sx.install()
 	iosim.install()
-	exhaustive = (ctx.run % 4 == 0)
+	exhaustive = ((ctx.run // 4) % 4 == 0)      # every fourth run of every interpreter environment (env index = run % 4)
 	thorough = ctx.tier == 'thorough'
 	kspec = _kspec(ch)
 	if exhaustive:
